@@ -21,6 +21,7 @@ pub struct LockstepLog {
     pub garbage_region_differences: u64,
     pub ifft_with_nonzero_tail: u64,
     pub perturbed_calls: u64,
+    pub far_position_calls: u64,
     /// distinct (primitive, log2 size, truncated class, skew class, blocks)
     pub tuples: BTreeSet<(u8, u8, u8, u8, u8)>,
 }
@@ -234,6 +235,20 @@ impl Lockstep {
                     _ => p.below(max_skew as u64 + 1) as usize,
                 };
                 self.shadow_transform(prim, &snapshot, count, len64, pos2, size2, trunc2, skew2);
+                // now and then the same window sits far out in a shard array longer than the field has elements
+                // (`pos` is an index into the caller's array, the contract puts no bound on it; only skew_delta
+                // refers to the field): one block per shard, window ending beyond shard 65536
+                if p.below(48) == 0 {
+                    let pad = p.below(64) as usize;
+                    let count_far = 65536 + size2 + pad;
+                    let pos_far = count_far - size2 - p.below(pad as u64 + 1) as usize;
+                    let mut far: Vec<[u8; 64]> = vec![[0x5A; 64]; count_far];
+                    for i in 0..size2 {
+                        far[pos_far + i] = snapshot[(pos2 + i) * len64];
+                    }
+                    LOG.with(|l| l.borrow_mut().far_position_calls += 1);
+                    self.shadow_transform(prim, &far, count_far, 1, pos_far, size2, trunc2, skew2);
+                }
             }
         }
     }
